@@ -460,7 +460,7 @@ func main() {
 			// 2. sweeps from every key, and clone independence in both directions, on history-built trees
 			betas := []int{0, 1, 250, 500, 999, 1000}
 			patterns := []string{"asc", "desc", "zigzag", "bulk", "churn", "mix"}
-			for i := 0; i < g.Scale(260, 6000); i++ {
+			for i := 0; i < g.Scale(600, 6000); i++ {
 				beta := tr.Pick(r, betas)
 				if r.Chance(1, 4) {
 					beta = r.Intn(1001)
